@@ -9,6 +9,26 @@ import (
 	rhp4 "go.sia.tech/coreutils/rhp/v4"
 )
 
+// doubleSpend spends the given renter inputs in a separate transaction (paying
+// the void address) and submits it to the pool the host validates against.
+func (r *Renter) doubleSpend(basis types.ChainIndex, inputs []types.SiacoinElement) error {
+	var sum types.Currency
+	txn := types.V2Transaction{MinerFee: types.Siacoins(1)}
+	toSign := make([]int, 0, len(inputs))
+	for i, in := range inputs {
+		txn.SiacoinInputs = append(txn.SiacoinInputs, types.V2SiacoinInput{Parent: in.Copy()})
+		sum = sum.Add(in.SiacoinOutput.Value)
+		toSign = append(toSign, i)
+	}
+	if sum.Cmp(txn.MinerFee) <= 0 {
+		return errors.New("renter: inputs too small to double-spend")
+	}
+	txn.SiacoinOutputs = []types.SiacoinOutput{{Address: types.VoidAddress, Value: sum.Sub(txn.MinerFee)}}
+	r.H.RenterWallet.SignV2Inputs(&txn, toSign)
+	_, err := r.H.CM.AddV2PoolTransactions(basis, []types.V2Transaction{txn})
+	return err
+}
+
 // FormResult is the outcome of a form-contract exchange.
 type FormResult struct {
 	Result
@@ -68,6 +88,11 @@ func (r *Renter) Form(prices proto4.HostPrices, params proto4.RPCFormContractPar
 			return err
 		}
 		t.between()
+		if t != nil && t.DoubleSpend {
+			if err := r.doubleSpend(basis, inputs); err != nil {
+				return fmt.Errorf("renter: double spend not accepted by the pool: %w", err)
+			}
+		}
 		var sum types.Currency
 		for _, si := range hostInputs.HostInputs {
 			sum = sum.Add(si.Parent.SiacoinOutput.Value)
@@ -85,6 +110,7 @@ func (r *Renter) Form(prices proto4.HostPrices, params proto4.RPCFormContractPar
 		for _, si := range txn.SiacoinInputs[:len(inputs)] {
 			second.RenterSatisfiedPolicies = append(second.RenterSatisfiedPolicies, si.SatisfiedPolicy)
 		}
+		t.second(&second)
 		if err := x.send(&second); err != nil {
 			return err
 		}
@@ -106,7 +132,7 @@ func (r *Renter) Form(prices proto4.HostPrices, params proto4.RPCFormContractPar
 		return nil
 	}()
 	x.finish(err)
-	if !out.SignaturesSent {
+	if !out.SignaturesSent || out.RPCErr != nil {
 		release()
 	}
 	return
@@ -225,6 +251,11 @@ func (r *Renter) Renew(c Contract, prices proto4.HostPrices, a RenewArgs, s Scri
 			return err
 		}
 		t.between()
+		if t != nil && t.DoubleSpend {
+			if err := r.doubleSpend(reqBasis, inputs); err != nil {
+				return fmt.Errorf("renter: double spend not accepted by the pool: %w", err)
+			}
+		}
 		var sum types.Currency
 		for _, si := range hostInputs.HostInputs {
 			sum = sum.Add(si.Parent.SiacoinOutput.Value)
@@ -254,6 +285,7 @@ func (r *Renter) Renew(c Contract, prices proto4.HostPrices, a RenewArgs, s Scri
 		for _, si := range txn.SiacoinInputs[:len(inputs)] {
 			second.RenterSatisfiedPolicies = append(second.RenterSatisfiedPolicies, si.SatisfiedPolicy)
 		}
+		t.second(&second)
 		if err := x.send(&second); err != nil {
 			return err
 		}
@@ -282,7 +314,7 @@ func (r *Renter) Renew(c Contract, prices proto4.HostPrices, a RenewArgs, s Scri
 		return nil
 	}()
 	x.finish(err)
-	if !out.SignaturesSent {
+	if !out.SignaturesSent || out.RPCErr != nil {
 		release()
 	}
 	return
